@@ -710,3 +710,75 @@ func rootParam(f *FuncInfo, e ast.Expr, depth int) int {
 	}
 	return -1
 }
+
+// ruleKeyMapLookup: R-KEYMAP-LOOKUP — gNMI key maps (map[string]string) are total only on the keys
+// present: a single-value lookup yields "" for a missing key, so comparing it with a value that can
+// itself be "" (another key's value, a variable) conflates "missing" with "empty".
+func ruleKeyMapLookup(c *Ctx, r *Report, rel string, files ...string) {
+	r.Rule("R-KEYMAP-LOOKUP", "a lookup in a gNMI key map (map[string]string) whose result is compared with a non-constant or empty value uses the comma-ok form (or indexes with the range key of the same map): a missing key is not an empty key value", 3)
+	want := map[string]bool{}
+	for _, f := range files {
+		want[rel+"/"+f] = true
+	}
+	for _, f := range c.AllFuncs(rel) {
+		if !want[c.relFile(f.Decl.Pos())] {
+			continue
+		}
+		info := f.Info()
+		pm := c.parentMap(f.File)
+		n := 0
+		ast.Inspect(f.Decl.Body, func(x ast.Node) bool {
+			ix, ok := x.(*ast.IndexExpr)
+			if !ok {
+				return true
+			}
+			tv, ok := info.Types[ix.X]
+			if !ok {
+				return true
+			}
+			mt, ok := tv.Type.Underlying().(*types.Map)
+			if !ok || mt.Key().String() != "string" || mt.Elem().String() != "string" {
+				return true
+			}
+			// stores are not lookups.
+			if as, ok := pm[ix].(*ast.AssignStmt); ok {
+				for _, l := range as.Lhs {
+					if l == ast.Expr(ix) {
+						return true
+					}
+				}
+			}
+			n++
+			key := fmt.Sprintf("%s:key-lookup#%d", f.Name, n)
+			if as, ok := pm[ix].(*ast.AssignStmt); ok && len(as.Lhs) == 2 && len(as.Rhs) == 1 {
+				r.OK(key, c.Pos(ix.Pos()), "comma-ok lookup")
+				return true
+			}
+			// indexing with the range key of the same map: total.
+			total := false
+			for p := pm[ix]; p != nil; p = pm[p] {
+				if rs, ok := p.(*ast.RangeStmt); ok && rs.Key != nil && sameExpr(info, rs.X, ix.X) && ObjOf(info, rs.Key) == ObjOf(info, ix.Index) {
+					total = true
+				}
+			}
+			if total {
+				r.OK(key, c.Pos(ix.Pos()), "indexed with the range key of the same map")
+				return true
+			}
+			if be, ok := pm[ix].(*ast.BinaryExpr); ok && (be.Op == token.EQL || be.Op == token.NEQ) {
+				other := be.X
+				if other == ast.Expr(ix) {
+					other = be.Y
+				}
+				if v, isC := ConstOf(info, other); isC && v != `""` {
+					r.OK(key, c.Pos(ix.Pos()), "compared with the non-empty constant "+v)
+					return true
+				}
+				r.Bad(key, c.Pos(ix.Pos()), fmt.Sprintf("%s compares the single-value lookup %s with %s: a key that is missing from the map yields \"\" and is treated like a key whose value is the empty string (e.g. list[name=] vs list[id=1] compare equal)", f.Name, types.ExprString(ix), types.ExprString(other)))
+				return true
+			}
+			r.OK(key, c.Pos(ix.Pos()), "value use (no comparison)")
+			return true
+		})
+	}
+}
